@@ -44,7 +44,8 @@ Record field_def := { f_type : sty; f_args : list (name * input_def); f_features
 Record enum_val := { ev_value : gval; ev_desc : text; ev_deprecation : text }.
 
 Inductive named_type :=
-| NScalar (builtin : bool) (req : features) (desc : text)
+| NScalar (builtin : bool) (accept_all : bool) (req : features) (desc : text)
+    (* accept_all: the LiteralCoercion accepts every literal (or there is none) *)
 | NEnum (vals : list (name * enum_val)) (req : features) (desc : text)
 | NInput (fields : list (name * input_def)) (req : features) (has_result_coercion : bool) (desc : text)
 | NObject (fields : list (name * field_def)) (ifaces : list name) (req : features) (desc : text)
@@ -76,11 +77,11 @@ Fixpoint unwrap (t : sty) : name :=
 
 Definition nt_req (t : named_type) : features :=
   match t with
-  | NScalar _ r _ | NEnum _ r _ | NInput _ r _ _ | NObject _ _ r _ | NInterface _ r _ | NUnion _ r _ => r
+  | NScalar _ _ r _ | NEnum _ r _ | NInput _ r _ _ | NObject _ _ r _ | NInterface _ r _ | NUnion _ r _ => r
   end.
 Definition nt_desc (t : named_type) : text :=
   match t with
-  | NScalar _ _ d | NEnum _ _ d | NInput _ _ _ d | NObject _ _ _ d | NInterface _ _ d | NUnion _ _ d => d
+  | NScalar _ _ _ d | NEnum _ _ d | NInput _ _ _ d | NObject _ _ _ d | NInterface _ _ d | NUnion _ _ d => d
   end.
 
 (** ** The registry: schema.New + Inspect *)
@@ -93,7 +94,7 @@ Definition field_succs (f : field_def) : list name :=
     ([Directives []*Directive] of enums and scalars) are not part of this model *)
 Definition succs (t : named_type) : list name :=
   match t with
-  | NScalar _ _ _ => []
+  | NScalar _ _ _ _ => []
   | NEnum _ _ _ => []
   | NInput fs _ _ _ => map (fun a => unwrap (in_type (snd a))) fs
   | NObject fs ifs _ _ => flat_map (fun f => field_succs (snd f)) fs ++ ifs
@@ -150,7 +151,7 @@ Inductive kind := KScalar | KObject | KInterface | KUnion | KEnum | KInputObject
 
 Definition kind_of_named (t : named_type) : kind :=
   match t with
-  | NScalar _ _ _ => KScalar | NEnum _ _ _ => KEnum | NInput _ _ _ _ => KInputObject
+  | NScalar _ _ _ _ => KScalar | NEnum _ _ _ => KEnum | NInput _ _ _ _ => KInputObject
   | NObject _ _ _ _ => KObject | NInterface _ _ _ => KInterface | NUnion _ _ _ => KUnion
   end.
 
